@@ -941,7 +941,7 @@ class AdvancedTag(object):
             # No first child
             return None
 
-        return blocks[1]
+        return blocks[firstIdx]
 
 
     @property
